@@ -64,6 +64,27 @@ def canonRec (ci : Bool) (r : Rec) : Rec :=
 def canon (ci : Bool) (rs : List Rec) : List Rec :=
   (rs.filter (fun r => r.stream.canonical)).map (canonRec ci)
 
+/-- canonical form of records that are ALREADY normalised (what the implementation wrote to disk under CI):
+canonical streams only, `consumed.ms` masked, nothing else touched — so a volatile field the real
+`normalize_for_identity` failed to erase stays visible -/
+def canonImpl (rs : List Rec) : List Rec :=
+  (rs.filter (fun r => r.stream.canonical)).map (fun r => { r with consumedMs := r.consumedMs.map (fun _ => 0) })
+
+/-- monitor for the REAL `normalize_for_identity`: under CI, in an identity stream, `ms` is zeroed (and only present
+if it was), `now` is gone, every `durations_ms` value of a turn record is zero (same keys) — for yielded records too;
+the logical content is untouched; outside CI / identity streams nothing changes. -/
+def normOkB (ci : Bool) (inp out : Rec) : Bool :=
+  if ci && inp.stream.identity then
+    out.stream == inp.stream && out.ident == inp.ident
+      && out.ms == inp.ms.map (fun _ => 0) && out.now == none
+      && (if inp.stream == .turn then out.durs == inp.durs.map (fun l => l.map (fun _ => 0)) else out.durs == inp.durs)
+      && out.consumedMs == inp.consumedMs
+      && (if inp.stream == .turn then
+            (if inp.yielded == some true then out.yielded == some true && out.sliceIdx == inp.sliceIdx
+             else out.yielded == none && out.sliceIdx == none)
+          else out.yielded == inp.yielded && out.sliceIdx == inp.sliceIdx)
+  else out == inp
+
 structure Cfg where
   ci : Bool
   schedOn : Bool
@@ -293,5 +314,9 @@ def decEquivB (cfg : Cfg) (d d' : Dec) : Bool :=
 /-- monitor used by the harness on IMPLEMENTATION outputs: the canonical forms of two real executions of the
 same logical turn agree whenever their clock contributions are indistinguishable -/
 def sameCanonB (cfg : Cfg) (o o' : Out) : Bool := canonOut cfg o == canonOut cfg o'
+
+/-- the same on outputs read back from the implementation's log files (already normalised by the real code):
+no second normalisation, only the property's `consumed.ms` mask -/
+def sameCanonImplB (o o' : Out) : Bool := canonImpl o.recs == canonImpl o'.recs && o.line == o'.line
 
 end Clem.C01
